@@ -637,12 +637,38 @@ class FactBase:
         and constructions from the given Function objects."""
         seen = {}
         st = list(roots)
+        typed_done = set()
+
+        def special_members(rec):
+            """user-provided members a standard container or smart pointer may call on rec:
+            copy/move constructors, assignment, equality, call operator (hash/compare functors)."""
+            out = []
+            short = rec.split("::")[-1]
+            for nm in (rec + "::" + short, rec + "::operator=", rec + "::operator==", rec + "::operator()", rec + "::operator<",
+                       rec.rsplit("::", 1)[0] + "::operator==" if "::" in rec else "operator==", rec.rsplit("::", 1)[0] + "::swap" if "::" in rec else "swap"):
+                for g in self.by_name.get(nm, []):
+                    if g.raw.get("templated"):
+                        continue
+                    if nm.endswith("::" + short) and len(g.params) != 1:
+                        continue
+                    if (nm.endswith("::operator==") or nm.endswith("::swap")) and g.rec != rec and not any(rec in p["t"]["s"] for p in g.params):
+                        continue
+                    out.append(g)
+            return out
         while st:
             f = st.pop()
             if f.key in seen:
                 continue
             seen[f.key] = f
             for n in f.nodes():
+                t = n.get("t") or {}
+                for r in list(t.get("targs") or []) + ([t.get("rec")] if t.get("rec") else []):
+                    r = (r or "").replace("const ", "").strip()
+                    if r in self.records and (f.key, r) not in typed_done and (t.get("targs") or n.get("k") in ("construct",)):
+                        typed_done.add((f.key, r))
+                        for g in special_members(r):
+                            if g.key not in seen:
+                                st.append(g)
                 if n.get("k") in ("call", "construct"):
                     g = self.resolve_call(n)
                     if g is not None and g.key not in seen:
